@@ -45,7 +45,14 @@ type SimConfig struct {
 	N       int      `json:"n"`
 	T       int      `json:"t"`
 	Idents  []string `json:"idents"` // hex, bytewise sorted
+	// Access (Gnosis): the order in which the access node's two independent chain syncers
+	// reported before the schedule starts: "" or "set-key" (keyper set, then eon key), "key-set",
+	// "set-key-set" (the keyper set is announced again after the key)
+	Access string `json:"access,omitempty"`
 }
+
+// AccessOrders are the values of SimConfig.Access.
+var AccessOrders = []string{"set-key", "key-set", "set-key-set"}
 
 // SimOp: "T" node is triggered for the identities; "D" message number Msg (in order of
 // publication) is delivered to node Node (index N = the access node). An op that names a
@@ -128,9 +135,19 @@ func SimState(c SimConfig, i int) *State {
 }
 
 func simAccessState(c SimConfig) *State {
-	return &State{Name: fmt.Sprintf("sim-access-%d-%d", c.N, c.T), Inst: SimInst, MaxKeys: SimMaxKeys, Self: 0,
-		AnKeys:  []AnKey{{Eon: SimKci, Set: 0}},
-		AnKSets: []AnKSet{{Eon: SimKci, Keypers: seq(c.N), Threshold: int32(c.T)}},
+	// built through the node's own callbacks (World.Node), in the order the configuration names
+	order := c.Access
+	if order == "" {
+		order = "set-key"
+	}
+	if order != "set-key" && order != "key-set" && order != "set-key-set" {
+		panic("access order " + order)
+	}
+	return &State{Name: fmt.Sprintf("sim-access-%d-%d-%s", c.N, c.T, order), Inst: SimInst, MaxKeys: SimMaxKeys, Self: 0,
+		AnKeys:      []AnKey{{Eon: SimKci, Set: 0}},
+		AnKSets:     []AnKSet{{Eon: SimKci, Keypers: seq(c.N), Threshold: int32(c.T)}},
+		AnKeysFirst: order == "key-set",
+		AnSetsAgain: order == "set-key-set",
 	}
 }
 
